@@ -128,6 +128,31 @@ fn check_bin(name: &str, op: BinOpType, wa: u32, ua: u128, wb: u32, ub: u128) ->
     }
 }
 
+/// BitvectorDomain::bin_op on two known values: Value(v) exactly when the reference defines v and the operation
+/// is supported, Top of the P-Code result size otherwise.
+fn check_domain_bin(name: &str, op: BinOpType, wa: u32, ua: u128, wb: u32, ub: u128) -> Option<Value> {
+    use cwe_checker_lib::abstract_domain::{BitvectorDomain, RegisterDomain};
+    let (a, b) = (BitvectorDomain::Value(mk(wa, ua)), BitvectorDomain::Value(mk(wb, ub)));
+    let prev = std::panic::take_hook();
+    std::panic::set_hook(Box::new(|_| {}));
+    let caught = std::panic::catch_unwind(|| a.bin_op(op, &b));
+    std::panic::set_hook(prev);
+    let want = if unsupported_bin(op, wa, ub) { None } else { ref_bin(op, wa, ua, wb, ub) };
+    let out_bytes = match op {
+        BinOpType::Piece => (wa + wb) / 8,
+        _ => match ref_bin(op, wa, ua, wb, if ub == 0 { 1 } else { ub }) { Some((w, _)) => w / 8, None => if name.starts_with("Float") && (name.contains("Equal") || name.contains("Less")) { 1 } else { wa / 8 } },
+    };
+    let (bad, observed) = match caught {
+        Err(_) => (true, json!("panic")),
+        Ok(BitvectorDomain::Value(v)) => (want != Some(val(&v)), json!({"Value": {"width": val(&v).0, "value": hex(val(&v).1)}})),
+        Ok(BitvectorDomain::Top(size)) => (want.is_some() || u64::from(size) as u32 != out_bytes, json!({"Top": u64::from(size)})),
+    };
+    if bad {
+        Some(json!({"input": {"fn": "domain_bin_op", "op": name, "wa": wa, "a": hex(ua), "wb": wb, "b": hex(ub)}, "observed": observed,
+            "expected": match want { Some((w, u)) => json!({"Value": {"width": w, "value": hex(u)}}), None => json!({"Top": out_bytes}) }}))
+    } else { None }
+}
+
 fn widths_for(op: BinOpType, wa: u32) -> u32 {
     // second operand width: equal, except shifts use a 1-byte amount half of the time
     let _ = op;
@@ -137,7 +162,20 @@ fn widths_for(op: BinOpType, wa: u32) -> u32 {
 pub fn search(twin: &str, case: Option<&str>, seed: u64) -> Option<Value> {
     let mut rng = Rng(seed);
     match twin {
-        "c01.bin_op" | "c01.domain_bin_op" => {
+        "c01.domain_bin_op" => {
+            for (name, op) in BIN_OPS {
+                if let Some(c) = case { if c != *name { continue; } }
+                for ua in 0..256u128 { for ub in 0..256u128 {
+                    if let Some(v) = check_domain_bin(name, *op, 8, ua, 8, ub) { return Some(v); }
+                }}
+                for w in [16u32, 32, 64] { for _ in 0..5000 {
+                    let (ua, ub) = (rng.interesting(w), if rng.next() % 4 == 0 { 0 } else { rng.interesting(w) });
+                    if let Some(v) = check_domain_bin(name, *op, w, ua, w, ub) { return Some(v); }
+                }}
+            }
+            None
+        }
+        "c01.bin_op" => {
             for (name, op) in BIN_OPS {
                 if let Some(c) = case { if c != *name { continue; } }
                 // exhaustive 8 bit
@@ -282,6 +320,7 @@ pub fn replay(twin: &str, input: &Value) -> Value {
     let h = |k: &str| unhex(input[k].as_str().unwrap());
     let r = match f {
         "bin_op" => check_bin(input["op"].as_str().unwrap(), find(BIN_OPS, input["op"].as_str().unwrap()), g("wa"), h("a"), g("wb"), h("b")),
+        "domain_bin_op" => check_domain_bin(input["op"].as_str().unwrap(), find(BIN_OPS, input["op"].as_str().unwrap()), g("wa"), h("a"), g("wb"), h("b")),
         "un_op" => check_un(input["op"].as_str().unwrap(), find(UN_OPS, input["op"].as_str().unwrap()), g("w"), h("a")),
         "cast" => check_cast(input["op"].as_str().unwrap(), find(CAST_OPS, input["op"].as_str().unwrap()), g("w"), h("a"), g("t")),
         "subpiece" => {
